@@ -55,68 +55,76 @@ def check_selectors(p, w, r):
             continue
         r.analysed_functions.add(fi.key)
         key = f'{fi.key}::consults-once-and-obeys'
-        why = selector_shape(fi, attr)
+        why = selector_shape(p, w, fi, attr)
         (r.ok if not why else r.fail)('C15.R1', key, 'int → itself; generator → next() once; callable → one call; returned unchanged' if not why else why,
                                       src(fi.module), fi.node.lineno)
         # range assertion inside the selector (R3, first alternative)
         has_hist = f"self.stats['{attr}']" in ast.unparse(fi.node)
         if has_hist:
             k2 = f'{fi.key}::records-returned-value'
-            ret = [n for n in walk_no_nested(fi.node) if isinstance(n, ast.Return) and n.value is not None]
-            apps = [n for n in walk_no_nested(fi.node) if isinstance(n, ast.Call) and ast.unparse(n.func) == f"self.stats['{attr}'].append"]
-            ok = len(apps) == 1 and ret and all(ast.unparse(x.value) == ast.unparse(apps[0].args[0]) for x in ret)
+            ex = paths.Explorer(p, w.ci.key, tracked=set(), atomic=set(w.methods), unroll=1, interrupt_edges=False)
+            ok = True
+            npaths = 0
+            for pa in ex.paths(fi):
+                if pa.raises:
+                    continue
+                npaths += 1
+                ret = next((e.value for e in reversed(pa.events) if e.kind == 'return'), None)
+                apps = [e for e in pa.events if e.kind == 'xcall' and e.name == f"self.stats['{attr}'].append"]
+                if len(apps) != 1 or not apps[0].args or apps[0].args[0] != ret:
+                    ok = False
+            ok = ok and npaths > 0
             (r.ok if ok else r.fail)('C15.R2', k2, 'appends exactly the value it returns' if ok else
                                      'the selector does not record exactly the value it returns', src(fi.module), fi.node.lineno)
 
 
-def selector_shape(fi, attr):
-    sel = f'self.{attr}'
-    body = fi.node.body
-    top = [n for n in body if isinstance(n, ast.If)]
-    if not top:
-        return 'no dispatch on the selection policy'
-    branches = []
-    n = top[0]
-    while True:
-        branches.append((n.test, n.body))
-        if len(n.orelse) == 1 and isinstance(n.orelse[0], ast.If):
-            n = n.orelse[0]
-        else:
-            branches.append((None, n.orelse))
-            break
-    seen = set()
-    retvar = None
-    for test, blk in branches:
-        t = ast.unparse(test) if test is not None else 'else'
-        calls = [c for s_ in blk for c in ast.walk(s_) if isinstance(c, ast.Call)]
-        if test is not None and 'isinstance' in t and 'int' in t:
-            val = [s_ for s_ in blk if isinstance(s_, (ast.Assign, ast.Return))]
-            if not val or ast.unparse(val[0].value) != sel:
+def selector_shape(p, w, fi, attr):
+    """Path rule on the selector: on every completing path the answer is the configured int itself, or the result of exactly one
+    next(<selector>) / one call <selector>(), returned unchanged; a selector of another kind is rejected (no completing path for it)."""
+    ex = paths.Explorer(p, w.ci.key, tracked=set(), atomic=set(w.methods), unroll=1, interrupt_edges=False)
+    SEL = ('self', attr)
+    kinds = set()
+    n = 0
+    for pa in ex.paths(fi):
+        if pa.raises:
+            continue
+        n += 1
+        evs = pa.events
+        ret = next((e.value for e in reversed(evs) if e.kind == 'return'), None)
+        consult = [e for e in evs if (e.kind == 'xcall' and ((e.name == 'next' and e.args and e.args[0] == SEL) or e.name == f'self.{attr}'))
+                   or (e.kind == 'call' and e.name == attr)]
+        tests = {}
+        for e in evs:
+            if e.kind == 'cond' and not e.d.get('synthetic'):
+                t = e.text.replace(' ', '')
+                if t.startswith('isinstance(') and f'self.{attr}' in t and 'int' in t:
+                    tests['int'] = e.polarity
+                elif t.startswith('hasattr(') and '__next__' in t:
+                    tests['gen'] = e.polarity
+                elif t.startswith('callable('):
+                    tests['call'] = e.polarity
+        if tests.get('int'):
+            kinds.add('int')
+            if consult:
+                return 'the constant-index branch consults the selector'
+            if ret != SEL:
                 return 'constant index branch does not use the configured index'
-            seen.add('int')
-        elif test is not None and '__next__' in t:
-            nx = [c for c in calls if isinstance(c.func, ast.Name) and c.func.id == 'next']
-            if len(nx) != 1 or ast.unparse(nx[0].args[0]) != sel:
-                return f'generator branch consults the generator {len(nx)} time(s)'
-            seen.add('gen')
-        elif test is not None and 'callable' in t:
-            cl = [c for c in calls if ast.unparse(c.func) == sel]
-            if len(cl) != 1:
-                return f'callable branch calls the user function {len(cl)} time(s)'
-            seen.add('call')
-        elif test is None:
-            if not any(isinstance(s_, ast.Raise) for s_ in blk):
-                return 'unsupported selector type is not rejected'
-    if seen != {'int', 'gen', 'call'}:
-        return f'dispatch covers {sorted(seen)}, expected int / generator / callable'
-    # the value must reach the return unchanged: no arithmetic on the result variable
-    for n2 in walk_no_nested(fi.node):
-        if isinstance(n2, ast.Return) and n2.value is not None and not isinstance(n2.value, (ast.Name, ast.Attribute)):
-            return f'returns `{ast.unparse(n2.value)}`, not the answer itself'
-        if isinstance(n2, ast.AugAssign):
-            return 'the answer is modified before it is returned'
-        if isinstance(n2, ast.Assign) and isinstance(n2.value, ast.BinOp):
-            return f'the answer is transformed (`{ast.unparse(n2)}`): wrapped instead of obeyed / rejected'
+        elif tests.get('gen') or tests.get('call'):
+            kind = 'gen' if tests.get('gen') else 'call'
+            kinds.add(kind)
+            if len(consult) != 1:
+                return (f'generator branch consults the generator {len(consult)} time(s)' if kind == 'gen' else
+                        f'callable branch calls the user function {len(consult)} time(s)')
+            if (kind == 'gen') != (consult[0].name == 'next'):
+                return 'the selector is consulted in the wrong way for its kind (next() on a function / call of a generator)'
+            if ret != consult[0].result:
+                return f'returns `{short(ret)}`, not the answer itself (the answer is transformed: wrapped instead of obeyed / rejected)'
+        else:
+            return 'unsupported selector type is not rejected'
+    if n == 0:
+        return 'no completing path'
+    if kinds != {'int', 'gen', 'call'}:
+        return f'dispatch covers {sorted(kinds)}, expected int / generator / callable'
     return None
 
 
@@ -234,6 +242,9 @@ def config_label(evs, side):
         if e.kind == 'cond' and not e.d.get('synthetic'):
             if e.text == f"self.{sel} == 'FIRST_AVAILABLE'" and fa is None:
                 fa = e.polarity
+            elif fa is None and e.d.get('operands') and e.operands[0] in ('Eq', 'NotEq') \
+                    and {e.operands[1], e.operands[2]} == {('self', sel), ('const', 'FIRST_AVAILABLE')}:
+                fa = e.polarity if e.operands[0] == 'Eq' else (not e.polarity)
             if e.text == 'self.blocking' and blk is None:
                 blk = e.polarity
     a = {True: 'first-available', False: 'policy', None: 'any-policy'}[fa]
